@@ -22,12 +22,14 @@ _T = ["md_buf_in_bounds", "md_write_index", "sha256_buf_in_bounds", "sha512_buf_
       "short_ciphertexts_refused"]
 THEOREMS = vcore.theorems_in("SodiumModel/Properties/C12.lean", _T, "Sodium.C12")
 IMPORTS = ["SodiumModel.Properties.C12"] if THEOREMS else ["SodiumModel.Model.Limits"]
-RULE = ("mem.sweep: for each of 13 API families (stream ciphers: 7 ciphers x keystream / xor / in-place / xor_ic at counter 0.., at the last admissible IETF counter and across the 2^32 and 2^64 carries; "
+RULE = ("mem.sweep: for each of 14 API families (stream ciphers: 7 ciphers x keystream / xor / in-place / xor_ic at counter 0.., at the last admissible IETF counter and across the 2^32 and 2^64 carries; "
         "6 AEADs: combined, detached, forged, truncated, NULL m/ad at length 0, ad length pseudo-random 0..149, precomputed AES-GCM key; secretbox / box easy, detached, afternm, sealed and NaCl zero-padded forms; "
         "SHA-256 / SHA-512 / BLAKE2b with every outlen 1..64 and keylen 0..64 / SipHash / Poly1305 / HMAC one-shot and streamed in 3 chunks; secretstream push / pull incl. forged and short chunks; "
         "Ed25519 sign / open / detached / verify / prehashed, forged and non-canonical signatures; hex and 4 Base64 variants: encode, decode of valid, mutated, truncated and separator-laden text with tight capacities; "
         "sodium_pad / unpad with block sizes 1..40 and 64..4096; comparison / arithmetic helpers; HKDF extract / expand for output lengths up to 255*HashLen and the BLAKE2b KDF; "
         "password-hash string verification / needs_rehash on valid Argon2id / Argon2i / scrypt strings truncated at every position, with one character replaced, inserted, or junk appended; "
+        "raw password-hash derivation with every OUTPUT length 16..160 into an out buffer of exactly that size (crypto_pwhash with both algorithms, crypto_pwhash_argon2i / argon2id, "
+        "crypto_pwhash_scryptsalsa208sha256 at the minimum limits; scrypt _ll with buflen 0..160, N = 2..16, r, p = 1..3, salt length 0..69) and the string forms into exactly STRBYTES with password length 0..160; "
         "fixed-size curve / scalar / key-exchange APIs and hash-to-curve with message length = len) x every length 0..N (N past every internal block and batch size) x placement of EVERY input and output buffer "
         "(exact documented size) on the heap at alignment offset k (k in 0..15, 31, 63 from a 64-byte boundary, prefix poisoned, end tight against the ASan redzone; plain builds: 64 canary bytes on both sides), "
         "ending exactly at a PROT_NONE page, or starting right after one x pseudo-random contents from the seed; each sweep line yields one FNV digest of all outputs and return codes, compared with the "
@@ -61,6 +63,8 @@ RANGES = {
     "utils": ([(0, 200)], [(0, 600)]),
     "kdf": ([(0, 256), (8128, 8160), (16288, 16320)], [(0, 1024), (8000, 8160), (16200, 16320)]),
     "pwhash": ([(0, 135)], [(0, 135)]),
+    # len = OUTPUT length of the raw password-hash derivations (exact-size out buffers) / password length of the string forms
+    "pwout": ([(0, 160)], [(0, 520), (1020, 1030)]),
     "curve": ([(0, 100)], [(0, 300)]),
 }
 PLACES_QUICK = ["h0", "h1", "h3", "h7", "h8", "h15", "h31", "h63", "e", "s"]
